@@ -1256,6 +1256,7 @@ DEFAULT_MODELS = {
     "<alloc::vec::Vec<T, A> as core::ops::deref::DerefMut>::deref_mut": _ident,
     "<alloc::string::String as core::ops::deref::DerefMut>::deref_mut": _ident,
     "alloc::vec::Vec::<T, A>::as_mut_slice": _ident,
+    "core::array::<impl [T; N]>::as_slice": _ident,
     "<alloc::boxed::Box<T, A> as core::clone::Clone>::clone": _ident,
     "<alloc::vec::Vec<T, A> as core::clone::Clone>::clone": _ident,
     "<alloc::string::String as core::clone::Clone>::clone": _ident,
